@@ -52,9 +52,17 @@ func c10Route(r *Run, rawPeer bool) {
 	maxPending := 1 + T.Draw("maxPending", 4)
 	K := 1 + T.Draw("senders", 8)
 	M := 1 + T.Draw("requests", 5)
+	// events: normally fewer than the event queue holds (its capacity is maxInFlight); sometimes more,
+	// in which case the connection may discard the surplus from the queue but must keep serving
 	nEvents := T.Draw("events", N+1)
-	if nEvents > N {
-		nEvents = N
+	if T.Bool("events.overflow", 0.2) {
+		nEvents = N + 1 + T.Draw("events.extra", 4)
+	}
+	// overflow mode: multi-page responses may exceed MaxPending while the consumer is slow; the affected
+	// request then legitimately fails, but its pages must still never reach another request
+	overflowMode := v.IsDse() && T.Bool("pages.overflow", 0.25)
+	if overflowMode {
+		N = 1 + T.Draw("maxInFlight.small", 3) // few ids: a recycled id is handed out again soon
 	}
 	nSpurious := T.Draw("spurious", 3)
 	opts := LinkOpts{
@@ -70,6 +78,7 @@ func c10Route(r *Run, rawPeer bool) {
 	r.Config["requests"] = fmt.Sprint(M)
 	r.Config["events"] = fmt.Sprint(nEvents)
 	r.Config["spurious"] = fmt.Sprint(nSpurious)
+	r.Config["overflowMode"] = fmt.Sprint(overflowMode)
 
 	plans := map[string]c10Plan{}
 	paceMs := map[string]int{}
@@ -81,8 +90,15 @@ func c10Route(r *Run, rawPeer bool) {
 				p.gapMs = T.Draw("gapms", 30)
 			}
 			tag := fmt.Sprintf("q%d.%d", i, j)
-			plans[tag] = p
 			paceMs[tag] = T.DrawP("pacems", 40, 0.5)
+			if overflowMode && T.Bool("overflow.this", 0.5) {
+				// the stream of pages outlasts the moment the request fails: late pages keep arriving while
+				// other requests are being sent (and ids are being recycled)
+				p.pages = maxPending + 2 + T.Draw("pages.extra", 8)
+				p.gapMs = 20 + T.Draw("gapms", 100)
+				paceMs[tag] = 200 + T.Draw("pacems.slow", 400)
+			}
+			plans[tag] = p
 		}
 	}
 
@@ -161,8 +177,10 @@ func c10Route(r *Run, rawPeer bool) {
 			}
 		})
 		evLeft, spLeft := nEvents, nSpurious
+		answererDone := false
 		r.Go("peer.answer", func() {
 			defer peerWG.Done()
+			defer func() { answererDone = true }()
 			send := func(f *frame.Frame) bool {
 				err := sc.Send(f)
 				r.Yield("peer.sent")
@@ -292,7 +310,13 @@ func c10Route(r *Run, rawPeer bool) {
 		peerCond.Bump()
 		// the answerer flushes the remaining events and stops; the receiver stops when we close
 		// drain the event channel before closing (Close replaces it)
-		r.Sleep(time.Second)
+		// wait until everything the peer pushed has arrived (slow links), bounded in fake time
+		for k := 0; k < 600; k++ {
+			r.Sleep(200 * time.Millisecond)
+			if answererDone && len(handlerSeen[0]) >= len(sentEvents) {
+				break
+			}
+		}
 		evc := cc.EventChannel()
 	drain:
 		for {
@@ -329,6 +353,7 @@ func c10Route(r *Run, rawPeer bool) {
 		return
 	}
 	accepted := 0
+	overflowedTags := map[string]bool{}
 	owner := map[string]string{} // page tag -> request tag that received it
 	for _, rec := range reqs {
 		if rec.req == nil {
@@ -345,6 +370,26 @@ func c10Route(r *Run, rawPeer bool) {
 				r.Violate(P, "routing", "delivered-twice", "response %s was delivered twice (to %s and %s)", g, prev, rec.tag)
 			}
 			owner[g] = rec.tag
+		}
+		overflowed := overflowMode && (rec.recvErr != nil || rec.errAtEnd != nil) && len(want) > maxPending
+		if overflowed {
+			// the request failed because more than MaxPending pages were waiting: what it did receive
+			// must be pages of its own response, in order, each at most once (prefix checks above cover
+			// foreign and duplicate pages)
+			wi := 0
+			for _, g := range rec.got {
+				for wi < len(want) && want[wi] != g {
+					wi++
+				}
+				if wi == len(want) {
+					r.Violate(P, "routing", "pages-out-of-order", "request %s (overflowed MaxPending=%d): received %v, peer sent %v", rec.tag, maxPending, rec.got, want)
+					break
+				}
+				wi++
+			}
+			overflowedTags[rec.tag] = true
+			r.Probes["requests_overflowed_max_pending"]++
+			continue
 		}
 		if strings.Join(rec.got, ",") != strings.Join(want, ",") {
 			cls := "pages-mismatch"
@@ -364,7 +409,7 @@ func c10Route(r *Run, rawPeer bool) {
 	// every response sent must have been received by somebody
 	for tag, pages := range sentPages {
 		for _, pg := range pages {
-			if _, ok := owner[pg]; !ok {
+			if _, ok := owner[pg]; !ok && !overflowedTags[tag] {
 				r.Violate(P, "routing", "response-lost", "response %s for %s was sent by the peer but received by no request", pg, tag)
 			}
 		}
@@ -375,19 +420,37 @@ func c10Route(r *Run, rawPeer bool) {
 			r.Violate(P, "routing", "spurious-delivered", "%s was delivered to request %s", g, o)
 		}
 	}
-	// events: exactly once on the channel and once per handler
+	// events: every handler sees every event exactly once; the event channel holds each event at most
+	// once, all of them unless more were pushed than the queue can hold
 	wantEv := append([]string{}, sentEvents...)
 	sort.Strings(wantEv)
-	check := func(name string, got []string) {
+	check := func(name string, got []string, mayDrop bool) {
 		g := append([]string{}, got...)
 		sort.Strings(g)
-		if strings.Join(g, ",") != strings.Join(wantEv, ",") {
-			r.Violate(P, "events", "events-"+name, "events sent by the peer %v, seen by %s %v", wantEv, name, g)
+		if !mayDrop {
+			if strings.Join(g, ",") != strings.Join(wantEv, ",") {
+				r.Violate(P, "events", "events-"+name, "events sent by the peer %v, seen by %s %v", wantEv, name, g)
+			}
+			return
+		}
+		seen := map[string]bool{}
+		sentSet := map[string]bool{}
+		for _, e := range wantEv {
+			sentSet[e] = true
+		}
+		for _, e := range g {
+			if seen[e] || !sentSet[e] {
+				r.Violate(P, "events", "events-"+name, "event queue overflow: peer sent %v, %s holds %v (duplicate or foreign entry %s)", wantEv, name, g, e)
+			}
+			seen[e] = true
+		}
+		if len(g) < minInt(len(wantEv), N) {
+			r.Violate(P, "events", "events-"+name, "event queue overflow: peer sent %d events, the queue holds %d of capacity %d", len(wantEv), len(g), N)
 		}
 	}
-	check("channel", chanEvents)
-	check("handler", handlerSeen[0])
-	check("handler", handlerSeen[1])
+	check("channel", chanEvents, nEvents > N)
+	check("handler", handlerSeen[0], false)
+	check("handler", handlerSeen[1], false)
 	r.Nontrivial = accepted >= 2 && r.repoSwitches > 0
 	if r.Spec.Trace {
 		var lines []string
